@@ -23,6 +23,7 @@ RULE = ("case = either a VTI history (domain with nnodes % nel != 0, 1..4 arrays
         "ScalarToFile history (1..4 signals: python/numpy scalars, 0-d arrays, vectors of length 1..6, small matrices; "
         "format, separator / .csv, 1..6 calls with changing values, optional stale file). Non-trivial = VTI: cell and "
         "point data in one file or >= 2 iterations; log: >= 2 calls or >= 2 columns. Distinct = sha1 of the case JSON.")
+FUZZ = {"quick": 0, "thorough": 3000, "instrument": "pymoto.modules.io"}
 ASSUMPTIONS = [
     "only domains with nnodes % nel != 0 (property's restriction)",
     "only arrays whose classification by size is unambiguous: total size a multiple of exactly one of nel / nnodes, "
